@@ -232,4 +232,9 @@ def sigfields(rng, must=(), cap=900):
     while sum(map(len, out.values())) > cap:
         k = max(out, key=lambda x: len(out[x]))
         out[k] = out[k][:len(out[k]) // 2]
+    # a caller's dict has whatever insertion order the caller produced
+    if rng.random() < 0.6:
+        ks = list(out)
+        rng.shuffle(ks)
+        out = {k: out[k] for k in ks}
     return out
